@@ -743,6 +743,7 @@ class Api:
             elif m2:
                 raise ApiError(f"{owner}::{fn['name']}: typed self receiver is not modelled")
         arena_lt, arena_arg, src_arg, other_in = None, False, False, 0
+        src_named = set()     # named lifetimes of the *other* reference parameters (the sources something is copied from)
         first_by_value_owner = False
         arity = self.lt_arity(rel)
         for idx, p in enumerate(rest):
@@ -759,6 +760,7 @@ class Api:
             elif pty[0] == "ref":
                 src_arg = True
                 other_in += 1
+                src_named |= ty_lifetimes(pty, arity)[0]
             else:
                 named, el = ty_lifetimes(pty, arity)
                 if named or el:
@@ -787,6 +789,10 @@ class Api:
             if (named - ({recv_lt} if recv_lt else set())) & arena_set:
                 ret_arena = True
             if named - arena_set - ({recv_lt} if recv_lt else set()):
+                ret_other = True
+            # a source reference that names a lifetime the result carries ties the result to that source as well, even
+            # when the lifetime is the arena's (`fn f(v: &'bump [u8], bump: &'bump Bump) -> String<'bump>`)
+            if named & src_named:
                 ret_other = True
             # peel Result / Option / Pin, look at the head
             def heads(t):
